@@ -109,6 +109,7 @@ func (p *prop) runStress(line string, f []string) core.Outcome {
 	if err := p.init(); err != nil {
 		return core.Outcome{Impl: "infra", Tags: []string{"infra"}, Failures: []core.Failure{{Class: "harness-infra", What: err.Error()}}}
 	}
+	dyn := f[0] == "stressdyn" // the upstreams come from a dynamic source: every loop iteration provisions and releases them
 	k := &kase{p: p, K: 2, U: baseTick, ev: make(chan reqEvent, 1), objIdx: map[*reverseproxy.Host]int{}, tags: map[string]bool{}}
 	k.cond = sync.NewCond(&k.mu)
 	k.dir = filepath.Join(p.root, fmt.Sprintf("s%d", p.nextDir.Add(1)))
@@ -128,6 +129,7 @@ func (p *prop) runStress(line string, f []string) core.Outcome {
 		for _, s := range servers {
 			s.Close()
 		}
+		dynReg.CompareAndDelete(k.dial(0), k)
 		k.mu.Lock()
 		for _, h := range k.objs {
 			hostReg.Delete(h)
@@ -137,7 +139,7 @@ func (p *prop) runStress(line string, f []string) core.Outcome {
 	// both configurations: upstreams 0 and 1, round robin, passive checks with a long window,
 	// max_fails high enough that nobody becomes unhealthy, one unhealthy_status entry
 	mk := func() *cfgGen {
-		st := step{keys: []int{0, 1}, p: true, d: longD, m: 100, s: 1}
+		st := step{keys: []int{0, 1}, p: true, d: longD, m: 100, s: 1, dyn: dyn}
 		ctx, cancel := caddy.NewContext(p.base)
 		js := k.handlerJSON(st, false)
 		js = []byte(strings.Replace(string(js), `"policy":"first"`, `"policy":"round_robin"`, 1))
@@ -219,6 +221,7 @@ func (p *prop) runStress(line string, f []string) core.Outcome {
 		return core.Outcome{Impl: "hang", Tags: []string{"stress"}, Failures: []core.Failure{{Class: "harness-infra", What: "stress requests did not return"}}}
 	}
 	// traffic has stopped: in-flight must be zero right now
+	k.registerDynHosts()
 	inflightEnd := 0
 	for _, h := range k.objs {
 		inflightEnd += h.NumRequests()
@@ -258,8 +261,20 @@ func (p *prop) runStress(line string, f []string) core.Outcome {
 			nPanic++
 		}
 	}
-	impl := fmt.Sprintf("n=%d ok=%d err=%d panic=%d inc=%d dec=%d fail=%d forget=%d end=%d/%d", N, nOK, nErr, nPanic, t[0], t[1], t[2], t[3], inflightEnd, failsEnd)
+	pooled := 0
+	for key := 0; key < 2; key++ {
+		if _, _, ok := reverseproxy.VerifHostsEntry(k.dial(key)); ok {
+			pooled++
+		}
+	}
+	impl := fmt.Sprintf("n=%d ok=%d err=%d panic=%d inc=%d dec=%d fail=%d forget=%d end=%d/%d pool=%d", N, nOK, nErr, nPanic, t[0], t[1], t[2], t[3], inflightEnd, failsEnd, pooled)
 	o := core.Outcome{Impl: impl, Tags: []string{"stress"}}
+	if dyn {
+		o.Tags = append(o.Tags, "stress-dynamic-upstreams")
+	}
+	if pooled != 0 {
+		o.Failures = append(o.Failures, core.Failure{Class: "pool-entry-leaked", What: fmt.Sprintf("all configurations unloaded and all requests returned, but %d addresses are still in the hosts pool", pooled)})
+	}
 	if len(neg) > 0 {
 		o.Failures = append(o.Failures, core.Failure{Class: "negative-counter", What: "a Host counter went below zero under concurrency: " + neg[0]})
 	}
